@@ -43,7 +43,7 @@ META = dict(
          "and the strings are counted as unspecified. Strings longer than the bound and items outside ITEMS are not explored.",
 )
 
-ITEMS = ["A", "B", "A B", "a.b", "c|d", "(e)", "x+y", "kg", "L/h", "%", "m\\"]      # the last one ends in a backslash
+ITEMS = ["A", "B", "A B", "a.b", "c|d", "(e)", "x+y", "kg", "L/h", "%", "m\\", "R&D #1~"]      # one ends in a backslash; the last has the characters re.escape escapes besides the regex specials
 FIXED_TOKENS = ["+", " ", "", "-", "1", "23", ".", "e"]
 
 ACCEPT, UNSPEC, REJECT = "accept", "unspecified", "reject"
